@@ -176,9 +176,13 @@ func (t treeSpec) build(s *store.Store, seed *int) (*builtTree, error) {
 			return nil, err
 		}
 		return &builtTree{Kind: "sym", Cid: l.(cidlink.Link).Cid, Size: sz, Content: []byte(target)}, nil
-	case "dir", "dirU", "hamt":
+	case "dir", "dirU", "hamt", "hamtM":
 		bt := &builtTree{Kind: t.Kind, Children: map[string]*builtTree{}}
-		names := childNames(t.Kind, nameRot(t))
+		nk := t.Kind
+		if nk == "hamtM" {
+			nk, bt.Kind = "hamt", "hamt" // same names; the model reads it like any HAMT
+		}
+		names := childNames(nk, nameRot(t))
 		var es []gen.DirEntry
 		for i, ch := range t.Children {
 			b, err := ch.build(s, seed)
@@ -190,7 +194,10 @@ func (t treeSpec) build(s *store.Store, seed *int) (*builtTree, error) {
 			es = append(es, gen.DirEntry{Name: names[i], Cid: b.Cid, Tsize: b.Size})
 		}
 		var err error
-		if t.Kind == "hamt" && len(es) > 0 {
+		if t.Kind == "hamtM" {
+			// root fanout 8, shards below it fanout 16 (same prefix width)
+			bt.Cid, bt.Size, err = gen.MixedHamt(s, es, []int{8, 16})
+		} else if t.Kind == "hamt" && len(es) > 0 {
 			bt.Cid, bt.Size, err = gen.OursSharded(s, 8, es)
 		} else if t.Kind == "hamt" {
 			// an empty sharded directory can only come from the reference writer
@@ -306,8 +313,17 @@ func pathVariants(segs []string) (same []string, other []string) {
 
 // pathTrees is the tree family shared by C03/C05/C20.
 func pathTrees(quick bool) []treeSpec {
+	ts := enumTrees(5)
 	if quick {
-		return enumTrees(4)
+		ts = enumTrees(4)
 	}
-	return enumTrees(5)
+	// sharded directories whose levels have different fanouts (kind "hamtM":
+	// written by the harness, entries placed by their hash)
+	f1, fN, sym := treeSpec{Kind: "f1"}, treeSpec{Kind: "fN"}, treeSpec{Kind: "sym"}
+	m := func(ch ...treeSpec) treeSpec { return treeSpec{Kind: "hamtM", Children: ch} }
+	ts = append(ts, m(f1, f1, f1), m(f1, fN, sym, f1), m(f1, f1, f1, f1, f1, f1),
+		treeSpec{Kind: "dir", Children: []treeSpec{m(f1, f1, fN), f1}},
+		m(treeSpec{Kind: "dir", Children: []treeSpec{f1}}, f1, m(f1, f1, f1)),
+		treeSpec{Kind: "hamt", Children: []treeSpec{m(f1, f1, f1), f1, f1}})
+	return ts
 }
